@@ -35,7 +35,9 @@ Definition chk_merge_distinct (results : list (list (list (Z * row)))) (impl : o
 
 (** compact tables: row i = [VInt i; VInt ((a*i+b) mod m)] (id column + key column), i = 0..cnt-1 *)
 Definition gen_row (a b m i : Z) : row := [VInt i; VInt ((a * i + b) mod m)].
-Definition gen_rows (cnt a b m : Z) : list row := map (fun k => gen_row a b m (Z.of_nat k)) (seq 0 (n cnt)).
+Fixpoint gen_from (fuel : nat) (a b m i : Z) : list row :=
+  match fuel with O => [] | S f => gen_row a b m i :: gen_from f a b m (i + 1) end.
+Definition gen_rows (cnt a b m : Z) : list row := gen_from (n cnt) a b m 0.
 Definition row_id (r : row) : Z := match r with VInt i :: _ => i | _ => -1 end.
 (** rows_to_chunks on a compact table: chunk lengths and ids *)
 Definition chk_rows_to_chunks_gen (cnt a b m csize : Z) (lens ids : list Z) : bool :=
@@ -237,3 +239,12 @@ Definition mkacc (c s q : Z) (mn mx f : option val) : acc :=
 Definition k_chunk_over_u16 (chunk_rows : Z) : bool := 65535 <? chunk_rows.
 (** C17-K4: the pull DistinctOperator gets an input chunk with more than 2048 new unique rows *)
 Definition k_pull_distinct_over_2048 (uniques_in_chunk : Z) : bool := 2048 <? uniques_in_chunk.
+(** C17-K8: the 64-bit hashes used by DISTINCT / GROUP BY / merge_distinct_results hash NULL and
+    FALSE alike ([0u8.hash] and [false.hash] both write the byte 0): the input contains both *)
+Definition k_null_and_false (rows : list row) : bool :=
+  existsb (fun v => val_eqb v VNull) (concat rows) && existsb (fun v => val_eqb v (VBool false)) (concat rows).
+(** the same for large tables: count, sum and sum of squares of the output ids *)
+Definition chk_par_sig (ks : list kspec) (cnt a b m : Z) (count sum sumsq : Z) : bool :=
+  let ids := map (fun hr => row_id (snd hr)) (spec_chain ks (mk_hrows (gen_rows cnt a b m))) in
+  (Z.of_nat (length ids) =? count) && (fold_left Z.add ids 0 =? sum)
+  && (fold_left (fun s i => s + i * i) ids 0 =? sumsq).
